@@ -205,6 +205,9 @@ def graph_source(i, g):
             ty = rustgen.spell(prefix_ty(e["ty"], pre), sp)
             lines.append("    pub f%d: %s,\n" % (j, ty))
             fields.append({"ctx": e["ctx"], "to": pre + e["to"]})
+            for other in e.get("also") or []:
+                # a field whose type mentions several project types is an edge to each of them
+                fields.append({"ctx": e["ctx"], "to": pre + other})
         serde = bool(g["serde"][n])
         dk = (g.get("derive") or {}).get(n)
         if dk:
